@@ -19,19 +19,24 @@ Start == /\ nid < MaxCalls /\ Cardinality(DOMAIN calls) < MaxActive /\ nid' = ni
             \/ \E op \in AddOps, S \in ArgSets :
                   (op = "AddBlock" => Cardinality(S) = 1) /\ Call(nid + 1, op, "none", {}, S)
             \/ \E c \in Cids : Call(nid + 1, "DeleteBlock", "none", {c}, {})
-Step == /\ UNCHANGED nid
-        /\ \/ \E b \in Blocks : Preload(b)
-           \/ \E id \in DOMAIN calls :
-                \* (duplicate keys = repeated lookups of one CID are left to the generated scenarios:
-                \*  here each key is looked up once, which keeps `ready` bounded)
-                \/ \E c \in Cids : (c \notin calls[id].seen /\ BsGet(id, c)) \/ BsDelete(id, c)
-                \/ \E S \in SUBSET calls[id].args : S # {} /\ AddPut(id, S)
-                \/ ExAsk(id, calls[id].miss)
-                \/ \E b \in Blocks : calls[id].ndl < MaxDl /\ ExDeliver(id, b)
-                \/ \E e \in BOOLEAN : ExEnd(id, e)
-                \/ \E b \in Blocks : CachePut(id, b) \/ DevCachePut(id, b) \/ Recv(id, b) \/ ReturnBlock(id, b)
-                \/ Closed(id) \/ ReturnOK(id)
-                \/ \E cl \in {"verifcid", "notfound"} : ReturnErr(id, cl)
-MCNext == Start \/ Step
+\* one named step per model action, so that TLC's coverage shows an action that is never taken
+S_Preload     == UNCHANGED nid /\ \E b \in Blocks : Preload(b)
+\* (duplicate keys = repeated lookups of one CID are left to the generated scenarios: here each key is
+\*  looked up once, which keeps `ready` bounded)
+S_BsGet       == UNCHANGED nid /\ \E id \in DOMAIN calls : \E c \in Cids : c \notin calls[id].seen /\ BsGet(id, c)
+S_BsDelete    == UNCHANGED nid /\ \E id \in DOMAIN calls : \E c \in Cids : BsDelete(id, c)
+S_AddPut      == UNCHANGED nid /\ \E id \in DOMAIN calls : \E S \in SUBSET calls[id].args : S # {} /\ AddPut(id, S)
+S_ExAsk       == UNCHANGED nid /\ \E id \in DOMAIN calls : ExAsk(id, calls[id].miss)
+S_ExDeliver   == UNCHANGED nid /\ \E id \in DOMAIN calls : \E b \in Blocks : calls[id].ndl < MaxDl /\ ExDeliver(id, b)
+S_ExEnd       == UNCHANGED nid /\ \E id \in DOMAIN calls : \E e \in BOOLEAN : ExEnd(id, e)
+S_CachePut    == UNCHANGED nid /\ \E id \in DOMAIN calls : \E b \in Blocks : CachePut(id, b)
+S_DevCachePut == UNCHANGED nid /\ \E id \in DOMAIN calls : \E b \in Blocks : DevCachePut(id, b)
+S_Recv        == UNCHANGED nid /\ \E id \in DOMAIN calls : \E b \in Blocks : Recv(id, b)
+S_ReturnBlock == UNCHANGED nid /\ \E id \in DOMAIN calls : \E b \in Blocks : ReturnBlock(id, b)
+S_Closed      == UNCHANGED nid /\ \E id \in DOMAIN calls : Closed(id)
+S_ReturnOK    == UNCHANGED nid /\ \E id \in DOMAIN calls : ReturnOK(id)
+S_ReturnErr   == UNCHANGED nid /\ \E id \in DOMAIN calls : \E cl \in {"verifcid", "notfound"} : ReturnErr(id, cl)
+MCNext == \/ Start \/ S_Preload \/ S_BsGet \/ S_BsDelete \/ S_AddPut \/ S_ExAsk \/ S_ExDeliver \/ S_ExEnd
+          \/ S_CachePut \/ S_DevCachePut \/ S_Recv \/ S_ReturnBlock \/ S_Closed \/ S_ReturnOK \/ S_ReturnErr
 MCSpec == MCInit /\ [][MCNext]_mvars
 =============================================================================
